@@ -530,17 +530,51 @@ func parseFooter(b []byte) Footer {
 	return Footer{N: ckInt(nd), Mode: ckInt(uint64(mode)), Ver: ckInt(uint64(ver)), CRC: Ints{int(crc >> 16), int(crc & 0xffff)}}
 }
 
+// junkSiblings leaves, for every other destination, longer files of foreign bytes next to it (the names an
+// interrupted earlier writer could have left behind): the destination itself is fresh, and what is written to
+// it must not depend on its neighbours.  The returned function removes them again.
+func junkSiblings(path string, k int) func() {
+	if k%2 == 0 {
+		return func() {}
+	}
+	junk := bytes.Repeat([]byte{0xAB, 0x07, 0xFF, 0x10}, 64<<8)
+	var made []string
+	for _, suf := range []string{".tmp", ".part", ".new", ".bak", "~"} {
+		if _, err := os.Stat(path + suf); err == nil {
+			continue
+		}
+		if os.WriteFile(path+suf, junk, 0600) == nil {
+			made = append(made, path+suf)
+		}
+	}
+	return func() {
+		for _, p := range made {
+			os.Remove(p)
+		}
+	}
+}
+
+// staleDest prepares the destination: usually absent, for every fourth file a longer file of foreign bytes
+// (what an interrupted earlier writer of the same name leaves behind) that the operation has to replace.
+func staleDest(path string, k int) {
+	os.Remove(path)
+	if k%4 == 3 {
+		os.WriteFile(path, bytes.Repeat([]byte{0x5A, 0x00, 0xC3, 0x7F}, 96<<8), 0600)
+	}
+}
+
 // Persist writes segment h with Persist and with WriteTo and logs the event.
 func (l *Life) Persist(h *hseg) int {
 	k := l.nextFil
 	l.nextFil++
 	path := l.path(k)
-	os.Remove(path)
+	staleDest(path, k)
 	ev := EvPersist{Ev: "persist", Sid: h.sid, File: k, Bytes: B{}, Foot: Footer{CRC: Ints{}}}
 	us, ok := h.seg.(segment.UnpersistedSegment)
 	if !ok {
 		fatal2("segment %d is not unpersisted", h.sid)
 	}
+	unjunk := junkSiblings(path, k)
 	opBegin("Persist")
 	var err error
 	func() {
@@ -552,6 +586,7 @@ func (l *Life) Persist(h *hseg) int {
 		err = us.Persist(path)
 	}()
 	opEnd()
+	unjunk()
 	ev.Err = err != nil
 	data, rerr := os.ReadFile(path)
 	ev.Exists = rerr == nil
@@ -633,7 +668,7 @@ func (l *Life) Merge(ins []*hseg, drops []Drop, mode int) (int, bool) {
 	k := l.nextFil
 	l.nextFil++
 	path := l.path(k)
-	os.Remove(path)
+	staleDest(path, k)
 	segs := make([]segment.Segment, len(ins))
 	bms := make([]*roaring.Bitmap, len(ins))
 	ev := EvMerge{Ev: "merge", File: k, Ins: Ints{}, Drops: drops, Mode: mode, Maps: []Ints{}, Engine: l.injected}
@@ -658,6 +693,8 @@ func (l *Life) Merge(ins []*hseg, drops []Drop, mode int) (int, bool) {
 				ev.Panic = fmt.Sprintf("%v", r)
 			}
 		}()
+		unjunk := junkSiblings(path, k)
+		defer unjunk()
 		opBegin("Merge")
 		maps, size, err = l.plugin.Merge(segs, bms, path, nil, nil)
 		opEnd()
